@@ -37,6 +37,12 @@ CLAIMED = {
  "C13": ("7/C13", "CFG edge-cut guard entailment on the version gate (per loop iteration), provenance of the stored version, client result mapping, forward taint for determinism, writer-reader agreement of the JSON snapshot, lock-held-until-return rule",
          "Structural necessary conditions only: version gate before every map write with the mismatch edge reporting the stored pair and writing nothing; stored version = entry index; client maps mismatch and proposal errors; no nondeterministic value reaches the map or results; snapshot marshals/decodes the same field and replaces the map; every map access under the (right kind of) lock until return. Glob semantics and JSON round trips are not decided.",
          "go/types+go/ssa; Raft applies entries in index order"),
+ "C14": ("7/C14", "CFG edge-cut guard entailment (exists / version-mismatch / membership / reserved-range edges), constant and provenance facts on the id sequence and record ids, directory-name provenance, shard/session targeting of every read and proposal",
+         "Structural necessary conditions only: compare-and-set create with version 0 and id from the sequence; sequence writes current+1 with the version read and returns it with the write's error; directory keyed by name and shard id; delete with the version read and NotFound mapping; reconciliation start/stop sets guarded by membership and the reserved range; every ActiveTable read/proposal addresses its own shard. Inter-node races reduce to C13.",
+         "go/types+go/ssa; C13 compare-and-set semantics, versions never 0"),
+ "C15": ("7/C15", "CFG edge-cut guard entailment on the lease write and delete (three-literal disjunction), version provenance, success-only-after-write rule, worker guard and flag rules",
+         "Structural necessary conditions only: lease written only when unclaimed / own / expired, with the version of the inspected lease, success only after the write succeeded; lease deleted only when own with the version read; the worker replicates/recovers only under its leased flag, which follows the lease call's outcome, and requests the lease for longer than the renewal period. Clock skew and the store's atomicity (C13) are not decided.",
+         "go/types+go/ssa; C13 compare-and-set semantics"),
 }
 PENDING_REASON = "rules designed (DESIGN.md section 7), check not built yet"
 checks=[]; na=[]
